@@ -61,6 +61,10 @@ func (e *Engine) Run(fn *ssa.Function) (final *St, err error) {
 				err = fmt.Errorf("UNSUPPORTED %s", u.msg)
 				return
 			}
+			if u, ok := r.(*unwind); ok {
+				err = fmt.Errorf("UNSUPPORTED panic of the program under analysis (%s at %s) escaped every frame with deferred calls", u.msg, u.pos)
+				return
+			}
 			panic(r)
 		}
 	}()
